@@ -70,6 +70,10 @@ func newWorld() *world {
 	add("[]string", []string{"a", "b"})
 	add("long string", strings.Repeat("s", 2100))
 	add("Inner", zoo.Inner{A: 3, S: "in"})
+	add("float64 1.5", 1.5)
+	add("float64 0.001", 0.001)
+	add("CustomNamed", &zoo.CustomNamed{K: "k", V: 7})
+	add("Many3 (three classes)", &zoo.Many3{F1: zoo.C1{V: 1}, L: []zoo.C2{{V: 2}}, End: 3})
 	add("empty []int32", []int32{})
 	add("nil map + empty slice in a struct", &R11c{})
 	add("unencodable(chan in 3rd field)", &R11bad{A: 1, B: "b", C: make(chan int)})
@@ -99,6 +103,8 @@ func newWorld() *world {
 	addB("garbage: unknown tag", []byte{0x45, 0x01, 0x02})
 	addB("garbage: class definition then end", full[:12])
 	addB("empty input", []byte{})
+	addB("binary in two chunks, the first with the legacy tag 'b'", []byte{'b', 0x00, 0x02, 1, 2, 'B', 0x00, 0x01, 3})
+	addB("binary in two chunks, the first with tag 0x41", []byte{0x41, 0x00, 0x02, 1, 2, 0x21, 3})
 	// a class definition with a field the Go type lacks: its value (an instance of an unknown class) is skipped
 	unk := &rh.Class{Name: "com.example.Unknown11", Fields: []string{"q"}}
 	r11 := &rh.Class{Name: w.nm["R11"], Fields: []string{"a", "zzExtra", "s", "l"}}
@@ -303,7 +309,7 @@ func ops11(kind int, w *world) []op11 {
 				return decRes(v, err, p)
 			}})
 		}
-		for _, bi := range []int{1, 2, 10} {
+		for _, bi := range []int{1, 2, len(w.vals) - 1} {
 			bi := bi
 			ops = append(ops, op11{"ReadFrom(reader) " + w.bnames[bi], true, func(in *inst11) string {
 				in.sr = guard.NewReader(w.bins[bi])
